@@ -379,7 +379,7 @@ def _build_read_defs(desc):
         "target_definitions": targets, "lookup_definitions": lookup, "expected": expected}
 
 
-@contract("pydsdl._dsdl.normalize_paths_argument_to_list", props=P)
+@contract("pydsdl._dsdl.normalize_paths_argument_to_list@bounded", props=P)
 class _NormalizePaths:
     verify = False
     assumed = _BOUNDED
@@ -419,7 +419,7 @@ def _build_paths(desc):
     return (lambda: _dsdl.normalize_paths_argument_to_list(arg)), {"arg": arg, "namespaces_or_namespace": arg}
 
 
-@contract("pydsdl._namespace._ensure_no_namespace_name_collisions_or_nested_root_namespaces", props=P)
+@contract("pydsdl._namespace._ensure_no_namespace_name_collisions_or_nested_root_namespaces@bounded", props=P)
 class _RootDirs:
     verify = False
     assumed = _BOUNDED
@@ -461,7 +461,9 @@ def _build_dirs(desc):
 
 
 NATIVE.add("pydsdl._namespace_reader.read_definitions", _gen_read_defs, _build_read_defs)
-NATIVE.add("pydsdl._dsdl.normalize_paths_argument_to_list", _gen_paths, _build_paths)
+NATIVE.add("pydsdl._dsdl.normalize_paths_argument_to_list@bounded", _gen_paths, _build_paths)
+NATIVE.add("pydsdl._namespace._ensure_no_namespace_name_collisions_or_nested_root_namespaces@bounded", _gen_dirs, _build_dirs)
+# the same inputs against the deductively verified contracts of specs/c10_dirs.py (native reading of the same clauses)
 NATIVE.add("pydsdl._namespace._ensure_no_namespace_name_collisions_or_nested_root_namespaces", _gen_dirs, _build_dirs)
 NATIVE_BUDGET = {"quick": 150, "thorough": 2000}
 
@@ -469,9 +471,11 @@ NOT_COVERED = [
     "rglob completeness (exactly one definition per *.dsdl / *.uavcan file under the root), symlinks, relative / absolute "
     "spelling of directory arguments, enumeration order of the operating system: file system, out of reach",
     "_read_definitions / read_definitions bookkeeping (direct and transitive disjoint, level-0 targets in direct, one object "
-    "per path, results sorted), normalize_paths_argument_to_list, "
-    "_ensure_no_namespace_name_collisions_or_nested_root_namespaces: only bounded native stand-ins (coverage.bounded); the "
-    "engine does not model sets of objects mutated through parameters, nested visitor classes and pathlib",
+    "per path, results sorted) and the iterable form of normalize_paths_argument_to_list (order-preserving de-duplication "
+    "through a stateful filter over elements of mixed type): only bounded native stand-ins (coverage.bounded); the engine "
+    "does not model sets of objects mutated through parameters and nested visitor classes.  "
+    "_ensure_no_namespace_name_collisions_or_nested_root_namespaces and the scalar forms of "
+    "normalize_paths_argument_to_list are proved in specs/c10_dirs.py relative to assumed pathlib relations",
     "that read_files yields the same types as read_namespace for the same files",
 ]
 EXPLANATION = ("file_sort / get_definition_ordering_rank are proved against the order of the statement relative to the "
@@ -480,3 +484,6 @@ EXPLANATION = ("file_sort / get_definition_ordering_rank are proved against the 
 ASSUMPTIONS = ["library contract of sorted(): stable permutation ordered by the key (pyvc/libmodel.py bi_sorted)",
                "determinism census: sets are recognised syntactically (set()/set display/set comprehension/annotation "
                "set[...]) inside one function; the reasons in JUSTIFIED are arguments, cited with the contracts they rest on"]
+
+# deductive contracts for the directory-argument functions (the "@bounded" stand-ins above stay as native cross-checks)
+from . import c10_dirs  # noqa: E402,F401
